@@ -9,7 +9,7 @@ import vlib
 
 HERE = os.path.dirname(os.path.abspath(__file__))
 sys.path.insert(0, HERE)
-import gen, oracle   # noqa: E402
+import gen, oracle, build_util   # noqa: E402
 
 LIBS = ["testcel_celeritas", "testcel_harness", "testcel_core", "testcel_geocel",
         "celeritas", "orange", "geocel", "corecel"]
@@ -199,7 +199,9 @@ def report(ctx, exe, r, what_prefix=""):
 
 def run(ctx):
     quick = ctx.tier == "quick"
-    ncases = 2400 if quick else 40000
+    # VERIF_SCALE (default 1) shrinks/grows the number of generated cases (used by the mutation self-tests)
+    scale = float(os.environ.get("VERIF_SCALE", "1") or 1)
+    ncases = int((2400 if quick else 40000) * scale)
     ctx.trusted += [
         "hand-written model coq/C02/TrackInit.v tied by exact op-sequence differential (props/C02/run.py, harness/trackinit.cc)",
         "serial (host, OpenMP=event) semantics of atomic_add / kernel launches; std::remove_if, std::stable_partition, std::exclusive_scan specifications",
@@ -211,13 +213,18 @@ def run(ctx):
     ]
     proofs_ok = ctx.coq_prove("Properties_C02.v")
     ok, log = ctx.coq_build(["C02/Run.vo"])
+    if not ok:      # the shared coq/ tree may be mid-edit by another builder: one retry
+        time.sleep(3)
+        ok, log = ctx.coq_build(["C02/Run.vo"])
     if not ok:
         ctx.violation("model-broken", "the executable model no longer compiles", {"log": log[-2000:]}, no_input=True)
         return
     MODEL_EXE["exe"] = ctx.ocaml_extract("C02/Extract.v", os.path.join(HERE, "harness", "driver.ml"), "c02model_exe", "c02model")
     ctx.build_libs(["testcel_celeritas"])
-    exe = ctx.compile_harness([os.path.join(HERE, "harness", "trackinit.cc")], "trackinit",
-                              libs=LIBS, test_includes=True)
+    # the harness is linked with the track-init translation units of the source
+    # tree as it is now (they override the copies inside libceleritas)
+    exe = build_util.compile_with_repo_sources(ctx, [os.path.join(HERE, "harness", "trackinit.cc")], "trackinit",
+                                               build_util.TRACK_TUS, LIBS)
     cases = load_corpus()
     ncorp = len(cases)
     r = ctx.rng
